@@ -263,3 +263,176 @@ Proof. vm_compute. split; reflexivity. Qed.
 Example stdin_flag_example :
   stdin_flag [true] = Some true /\ stdin_flag [false; true] = None /\ stdin_flag [false; false] = Some false /\ stdin_flag [] = Some false.
 Proof. vm_compute. repeat split; reflexivity. Qed.
+
+(* ------------------------------------------------------------------ the formatter across the files of a run *)
+
+(** does dispatching this file raise [has_fail] (starting from a lowered flag)? *)
+Definition sets (verb : Z) (fmt : format) (vs : list viol) : bool := snd (step verb fmt false vs).
+
+(** [has_fail] is a latch: a dispatch can raise it, never lower it. *)
+Lemma step_latch : forall verb fmt st vs, snd (step verb fmt st vs) = st || sets verb fmt vs.
+Proof.
+  intros verb fmt st vs. unfold sets, step. destruct fmt.
+  - destruct (human_file_v verb vs) as [r [[|]|]]; cbn; now destruct st.
+  - cbn. destruct (existsb is_fail vs); now destruct st.
+  - cbn. destruct (existsb _ vs); now destruct st.
+Qed.
+
+(** what is printed for a file does not depend on the files dispatched before it *)
+Lemma step_out : forall verb fmt st vs, fst (step verb fmt st vs) = fst (step verb fmt false vs).
+Proof. intros verb fmt st vs. unfold step. destruct fmt; [destruct (human_file_v verb vs)|..]; reflexivity. Qed.
+
+Lemma dispatch_seq_spec : forall verb fmt files st,
+  dispatch_seq verb fmt st files =
+  (map (fun vs => fst (step verb fmt false vs)) files, st || existsb (sets verb fmt) files).
+Proof.
+  intros verb fmt. induction files as [|vs files IH]; intro st; cbn [dispatch_seq map existsb].
+  - now rewrite orb_false_r.
+  - pose proof (step_latch verb fmt st vs) as Hl. pose proof (step_out verb fmt st vs) as Ho.
+    destruct (step verb fmt st vs) as [rh st']. cbn in Hl, Ho. subst. rewrite IH. now rewrite orb_assoc.
+Qed.
+
+Lemma run_lint_v_spec : forall verb fmt files,
+  run_lint_v verb fmt files =
+  (if existsb (sets verb fmt) files then 1 else 0, map (fun vs => fst (step verb fmt false vs)) files).
+Proof. intros. unfold run_lint_v. now rewrite dispatch_seq_spec. Qed.
+
+Lemma existsb_perm : forall {A} (f : A -> bool) l l', Permutation l l' -> existsb f l = existsb f l'.
+Proof.
+  intros A f l l' H. induction H; cbn; try congruence.
+  destruct (f x), (f y); reflexivity.
+Qed.
+
+(** The exit code does not depend on the order in which the files are dispatched (argument order, directory
+    walk, whichever worker finishes last), and each file gets the same lines whatever came before it. *)
+Theorem lint_v_order : forall verb fmt files files',
+  Permutation files files' ->
+  fst (run_lint_v verb fmt files) = fst (run_lint_v verb fmt files') /\
+  Permutation (snd (run_lint_v verb fmt files)) (snd (run_lint_v verb fmt files')).
+Proof.
+  intros verb fmt files files' H. rewrite !run_lint_v_spec. cbn [fst snd]. split.
+  - now rewrite (existsb_perm _ _ _ H).
+  - now apply Permutation_map.
+Qed.
+
+(** At any verbosity from 0 upwards the stateful run is [run_lint] (the per-file account of Model.v) plus headers. *)
+Lemma step_file_out : forall verb fmt vs, (0 <= verb)%Z ->
+  file_out false fmt vs = Some (fst (fst (step verb fmt false vs)), sets verb fmt vs).
+Proof.
+  intros verb fmt vs Hv. unfold sets, step. destruct fmt; cbn.
+  - unfold human_file_v, human_file. destruct (verb <? 0)%Z eqn:E; [apply Z.ltb_lt in E; lia|].
+    cbn [fst snd].
+    destruct (Nat.eqb (length (filter is_fail vs)) 0) eqn:Ef.
+    + apply Nat.eqb_eq in Ef. rewrite Ef. cbn [Nat.add].
+      destruct (negb (Nat.eqb (length (filter v_warning vs)) 0)); destruct (0 <? verb)%Z; cbn; reflexivity.
+    + assert (Hs : Nat.eqb (length (filter is_fail vs) + length (filter v_warning vs)) 0 = false).
+      { apply Nat.eqb_neq in Ef. apply Nat.eqb_neq. lia. }
+      rewrite Hs. cbn. rewrite orb_true_r. reflexivity.
+  - unfold github_file. destruct (existsb is_fail vs); reflexivity.
+  - unfold json_file. destruct (existsb _ vs); reflexivity.
+Qed.
+
+Theorem lint_v_as_lint : forall verb fmt files, (0 <= verb)%Z ->
+  run_lint fmt files = Some (fst (run_lint_v verb fmt files), map fst (snd (run_lint_v verb fmt files))).
+Proof.
+  intros verb fmt files Hv. rewrite run_lint_v_spec. cbn [fst snd]. unfold run_lint, run_lint_gen.
+  assert (H : dispatch_all false fmt files =
+              Some (map fst (map (fun vs => fst (step verb fmt false vs)) files), existsb (sets verb fmt) files)).
+  { induction files as [|vs files IH]; cbn [dispatch_all map existsb]; [reflexivity|].
+    rewrite (step_file_out verb fmt vs Hv), IH. reflexivity. }
+  now rewrite H.
+Qed.
+
+(** lint with the shared formatter at a documented verbosity: the exit code is 1 exactly when a non-warning
+    violation is reported, every violation of every file is reported, and the answer is the same in any dispatch
+    order, at any verbosity and in any format. *)
+Theorem lint_v_exit_spec : forall verb fmt files,
+  (0 <= verb)%Z -> no_ignore files ->
+  let '(code, reps) := run_lint_v verb fmt files in
+  (code = 1 \/ code = 0) /\
+  (code = 1 <-> exists vs v, In vs files /\ In v vs /\ v_warning v = false) /\
+  Forall2 (fun rep vs => Permutation (fst rep) (map rl vs)) reps files.
+Proof.
+  intros verb fmt files Hv Hig. pose proof (lint_v_as_lint verb fmt files Hv) as H.
+  destruct (run_lint_v verb fmt files) as [code reps]. cbn [fst snd] in H.
+  destruct (lint_exit_spec fmt files code (map fst reps) Hig H) as [H1 [H2 H3]].
+  split; [exact H1|]. split; [exact H2|].
+  clear - H3. revert files H3. induction reps as [|r reps IH]; intros files H3; cbn in H3; inversion H3; subst; constructor; auto.
+Qed.
+
+Theorem lint_v_agree : forall v1 v2 f1 f2 files,
+  (0 <= v1)%Z -> (0 <= v2)%Z -> no_ignore files ->
+  fst (run_lint_v v1 f1 files) = fst (run_lint_v v2 f2 files) /\
+  Forall2 (fun a b => Permutation (fst a) (fst b)) (snd (run_lint_v v1 f1 files)) (snd (run_lint_v v2 f2 files)).
+Proof.
+  intros v1 v2 f1 f2 files H1 H2 Hig.
+  destruct (formats_agree f1 f2 files _ _ _ _ Hig (lint_v_as_lint v1 f1 files H1) (lint_v_as_lint v2 f2 files H2)) as [Hc Hr].
+  split; [exact Hc|].
+  remember (snd (run_lint_v v1 f1 files)) as a. remember (snd (run_lint_v v2 f2 files)) as b. clear - Hr.
+  revert b Hr. induction a as [|x a IH]; intros [|y b] Hr; cbn in Hr; inversion Hr; subst; constructor; auto.
+Qed.
+
+(** the header of the human format: FAIL exactly for a file with a non-warning violation; at verbosity above 0
+    every file has one; a file without header has no line printed *)
+Theorem human_header_spec : forall verb vs,
+  (0 <= verb)%Z -> (forall v, In v vs -> v_ignore v = false) ->
+  let '(r, h) := human_file_v verb vs in
+  (h = Some false <-> exists v, In v vs /\ v_warning v = false) /\
+  ((0 < verb)%Z -> h <> None) /\
+  (h = None -> r = [] /\ vs = []).
+Proof.
+  intros verb vs Hv Hig. unfold human_file_v.
+  destruct (verb <? 0)%Z eqn:E; [apply Z.ltb_lt in E; lia|].
+  assert (Hf : existsb is_fail vs = true <-> exists v, In v vs /\ v_warning v = false).
+  { rewrite existsb_exists. split; intros [v [Hi Hw]]; exists v; split; auto.
+    - unfold is_fail in Hw. apply andb_true_iff in Hw as [_ Hw]. now apply negb_true_iff in Hw.
+    - unfold is_fail. now rewrite (Hig v Hi), Hw. }
+  rewrite (length_filter_zero is_fail vs).
+  assert (Hshow : existsb is_fail vs = true ->
+                  Nat.eqb (length (filter is_fail vs) + length (filter v_warning vs)) 0 = false).
+  { intro Hx. apply Nat.eqb_neq. pose proof (length_filter_zero is_fail vs) as Hz. rewrite Hx in Hz. cbn in Hz.
+    apply Nat.eqb_neq in Hz. lia. }
+  split; [|split].
+  - rewrite <- Hf. destruct (existsb is_fail vs) eqn:Ex.
+    + rewrite (Hshow eq_refl). cbn. rewrite orb_true_r. split; reflexivity.
+    + cbn. destruct ((0 <? verb)%Z || _); split; intro; discriminate.
+  - intro Hp. apply Z.ltb_lt in Hp. rewrite Hp. cbn. discriminate.
+  - destruct vs as [|x vs']; [cbn; destruct (0 <? verb)%Z; cbn; [discriminate | auto]|].
+    assert (Hs : Nat.eqb (length (filter is_fail (x :: vs')) + length (filter v_warning (x :: vs'))) 0 = false).
+    { cbn [filter]. unfold is_fail at 1. rewrite (Hig x (or_introl eq_refl)). cbn [negb andb].
+      destruct (v_warning x); cbn; [rewrite Nat.add_succ_r|]; reflexivity. }
+    rewrite Hs. cbn. rewrite orb_true_r. discriminate.
+Qed.
+
+(** stdin mode is the one-file run of the same formatter *)
+Theorem stdin_v_agrees : forall verb fmt vs,
+  run_lint_v verb fmt [vs] = (fst (run_lint_stdin_v verb fmt vs), [snd (run_lint_stdin_v verb fmt vs)]).
+Proof.
+  intros verb fmt vs. unfold run_lint_v, run_lint_stdin_v. cbn [dispatch_seq].
+  destruct (step verb fmt false vs) as [rh st]. reflexivity.
+Qed.
+
+(** Outside the documented range: below verbosity 0 the human formatter prints nothing and never raises
+    [has_fail], whatever was found (the other two formats have no verbosity). *)
+Theorem human_quiet : forall verb files, (verb < 0)%Z ->
+  run_lint_v verb Human files = (0, map (fun _ => ([], None)) files).
+Proof.
+  intros verb files Hv. rewrite run_lint_v_spec.
+  assert (Hs : forall vs, step verb Human false vs = (([], None), false)).
+  { intro vs. unfold step, human_file_v. apply Z.ltb_lt in Hv. now rewrite Hv. }
+  replace (existsb (sets verb Human) files) with false.
+  - f_equal. apply map_ext. intro vs. now rewrite Hs.
+  - symmetry. apply not_true_is_false. intro Hx. apply existsb_exists in Hx as [vs [_ Hx]]. unfold sets in Hx. now rewrite Hs in Hx.
+Qed.
+
+Example lint_v_example :
+  run_lint_v 1 Human [[v_prs; v_ok]; []; [v_warn]] =
+    (1, [([rl v_ok; rl v_prs], Some false); ([], Some true); ([rl v_warn], Some true)]) /\
+  run_lint_v 1 Human [[]; [v_warn]; [v_prs; v_ok]] =
+    (1, [([], Some true); ([rl v_warn], Some true); ([rl v_ok; rl v_prs], Some false)]) /\
+  run_lint_v 0 Human [[v_prs; v_ok]; []; [v_warn]] =
+    (1, [([rl v_ok; rl v_prs], Some false); ([], None); ([rl v_warn], Some true)]) /\
+  run_lint_v 2 Json [[v_prs; v_ok]; []] = (1, [([rl v_prs; rl v_ok], None); ([], None)]) /\
+  run_lint_v (-1) Human [[v_prs; v_ok]; []] = (0, [([], None); ([], None)]) /\
+  run_lint_stdin_v 1 Human [] = (0, ([], Some true)).
+Proof. vm_compute. repeat split; reflexivity. Qed.
